@@ -337,7 +337,79 @@ proof fn prop_c06_extremes(rs: Seq<FoundDateTimeKind>, j: int)
 }
 
 // C04's "exists a year" for an instant within two days of calendar year y, in terms of the six start/end instants of the
-// years y-1, y, y+1 (the window the search looks at)
+// years y-1, y, y+1 (the window the search looks at); one lemma per reading of the rule (smaller, stable queries)
+proof fn lemma_alt_near_sf(a: AlternateTime, u: int, y: int)
+    requires
+        alt_wf(a),
+        near_year(u, y),
+        start_first(a),
+    ensures
+        in_dst(a, u) <==> ((alt_s(a, y - 1) <= u < alt_e(a, y - 1)) || (alt_s(a, y) <= u < alt_e(a, y)) || (alt_s(a, y + 1) <= u < alt_e(a, y + 1))),
+{
+    hide(alt_s);
+    hide(alt_e);
+    hide(dby);
+    hide(alt_wf);
+    lemma_dby_step(y - 2);
+    lemma_dby_step(y - 1);
+    lemma_dby_step(y);
+    lemma_dby_step(y + 1);
+    if in_dst(a, u) {
+        let yy = choose|yy: int| alt_s(a, yy) <= u < #[trigger] alt_e(a, yy);
+        lemma_alt_window(a, yy);
+        if yy <= y - 2 {
+            lemma_dby_mono(yy, y - 2);
+        }
+        if yy >= y + 2 {
+            lemma_dby_mono(y + 2, yy);
+        }
+        assert(y - 1 <= yy <= y + 1);
+    }
+}
+
+proof fn lemma_alt_near_ef(a: AlternateTime, u: int, y: int)
+    requires
+        alt_wf(a),
+        near_year(u, y),
+        !start_first(a),
+    ensures
+        in_dst(a, u) <==> (u < alt_e(a, y - 1) || (alt_s(a, y - 1) <= u < alt_e(a, y)) || (alt_s(a, y) <= u < alt_e(a, y + 1)) || alt_s(a, y + 1) <= u),
+{
+    hide(alt_s);
+    hide(alt_e);
+    hide(dby);
+    hide(alt_wf);
+    lemma_alt_window(a, y - 2);
+    lemma_alt_window(a, y + 2);
+    lemma_dby_step(y - 3);
+    lemma_dby_step(y - 2);
+    lemma_dby_step(y - 1);
+    lemma_dby_step(y);
+    lemma_dby_step(y + 1);
+    lemma_dby_step(y + 2);
+    if in_dst(a, u) {
+        let yy = choose|yy: int| #[trigger] alt_s(a, yy) <= u < alt_e(a, yy + 1);
+        lemma_alt_window(a, yy);
+        lemma_alt_window(a, yy + 1);
+        if yy <= y - 3 {
+            lemma_dby_mono(yy + 1, y - 2);
+        }
+        if yy >= y + 2 {
+            lemma_dby_mono(y + 2, yy);
+        }
+        assert(y - 2 <= yy <= y + 1);
+    }
+    // the open-ended first and last segments: S(y-2) <= u < E(y+2)
+    assert(alt_s(a, y - 2) <= u);
+    assert(u < alt_e(a, y + 2));
+    if u < alt_e(a, y - 1) {
+        assert(alt_s(a, y - 2) <= u < alt_e(a, y - 2 + 1));
+    }
+    if alt_s(a, y + 1) <= u {
+        assert(alt_s(a, y + 1) <= u < alt_e(a, y + 1 + 1));
+    }
+}
+
 proof fn lemma_alt_near(a: AlternateTime, u: int, y: int)
     requires
         alt_wf(a),
@@ -349,57 +421,12 @@ proof fn lemma_alt_near(a: AlternateTime, u: int, y: int)
 {
     hide(alt_s);
     hide(alt_e);
-    hide(dby);
+    hide(in_dst);
     hide(alt_wf);
-    assert(order_stable(a)) by {
-        reveal(alt_wf);
-    }
-    lemma_alt_window(a, y - 2);
-    lemma_alt_window(a, y - 1);
-    lemma_alt_window(a, y);
-    lemma_alt_window(a, y + 1);
-    lemma_alt_window(a, y + 2);
-    lemma_dby_step(y - 3);
-    lemma_dby_step(y - 2);
-    lemma_dby_step(y - 1);
-    lemma_dby_step(y);
-    lemma_dby_step(y + 1);
-    lemma_dby_step(y + 2);
     if start_first(a) {
-        if in_dst(a, u) {
-            let yy = choose|yy: int| alt_s(a, yy) <= u < #[trigger] alt_e(a, yy);
-            lemma_alt_window(a, yy);
-            if yy <= y - 2 {
-                lemma_dby_mono(yy, y - 2);
-            }
-            if yy >= y + 2 {
-                lemma_dby_mono(y + 2, yy);
-            }
-            assert(y - 1 <= yy <= y + 1);
-        }
+        lemma_alt_near_sf(a, u, y);
     } else {
-        assert(end_first(a));
-        if in_dst(a, u) {
-            let yy = choose|yy: int| #[trigger] alt_s(a, yy) <= u < alt_e(a, yy + 1);
-            lemma_alt_window(a, yy);
-            lemma_alt_window(a, yy + 1);
-            if yy <= y - 3 {
-                lemma_dby_mono(yy + 1, y - 2);
-            }
-            if yy >= y + 2 {
-                lemma_dby_mono(y + 2, yy);
-            }
-            assert(y - 2 <= yy <= y + 1);
-        }
-        // the open-ended first and last segments: S(y-2) <= u < E(y+2)
-        assert(alt_s(a, y - 2) <= u);
-        assert(u < alt_e(a, y + 2));
-        if u < alt_e(a, y - 1) {
-            assert(alt_s(a, y - 2) <= u < alt_e(a, y - 2 + 1));
-        }
-        if alt_s(a, y + 1) <= u {
-            assert(alt_s(a, y + 1) <= u < alt_e(a, y + 1 + 1));
-        }
+        lemma_alt_near_ef(a, u, y);
     }
 }
 
@@ -717,5 +744,110 @@ proof fn lemma_walk_gaps_push(q: FindQuery, a: AlternateTime, sorted: bool, t: S
 {
     assert forall|j: int| 0 <= j < hi && #[trigger] walk_gap_cond(q, a, sorted, t, p0, j) implies has_walk_gap(q, a, sorted, t, p0, j, rs.push(k)) by {
         lemma_has_walk_gap_push(q, a, sorted, t, p0, j, rs, k);
+    }
+}
+
+// a start/end instant within two days of calendar year y belongs to one of the years y-1..y+1
+proof fn lemma_instant_year_window(a: AlternateTime, y: int, yy: int, t: int)
+    requires
+        alt_wf(a),
+        t == alt_s(a, yy) || t == alt_e(a, yy),
+        (dby(y) - 2) * 86400 <= t <= (dby(y + 1) + 2) * 86400,
+    ensures
+        y - 1 <= yy <= y + 1,
+{
+    hide(alt_s);
+    hide(alt_e);
+    hide(dby);
+    hide(alt_wf);
+    lemma_alt_window(a, yy);
+    lemma_dby_step(y - 2);
+    lemma_dby_step(y - 1);
+    lemma_dby_step(y);
+    lemma_dby_step(y + 1);
+    if yy <= y - 2 {
+        lemma_dby_mono(yy, y - 2);
+    }
+    if yy >= y + 2 {
+        lemma_dby_mono(y + 2, yy);
+    }
+}
+
+// C06 completeness over every year of the rule: a start/end instant whose gap contains the searched time belongs to the years
+// y-1..y+1, i.e. it is one of the instants the walk looks at, so the gap is among the reported ones
+proof fn prop_c06_rule_gaps_complete(q: FindQuery, a: AlternateTime, p0: int, rs: Seq<FoundDateTimeKind>, yy: int, is_start: bool)
+    requires
+        alt_wf(a),
+        strict_interleaving(a),
+        -2147483646 <= q.year <= 2147483645,
+        dby(q.year as int) * 86400 <= q_civil(q) <= dby(q.year as int + 1) * 86400,
+        walk_gaps_found(q, a, start_first(a), rule_times(a, q.year as int, start_first(a)), p0, rs, 6),
+        rule_gap_cond(q, a, p0, yy, is_start),
+    ensures
+        q.year - 1 <= yy <= q.year + 1,
+        has_walk_gap(q, a, start_first(a), rule_times(a, q.year as int, start_first(a)), p0, walk_index(start_first(a), q.year as int, yy, is_start), rs),
+{
+    hide(alt_s);
+    hide(alt_e);
+    hide(dby);
+    hide(alt_wf);
+    hide(strict_interleaving);
+    let y = q.year as int;
+    let sorted = start_first(a);
+    let t = rule_times(a, y, sorted);
+    let ti = if is_start { alt_s(a, yy) } else { alt_e(a, yy) };
+    assert(-90000 < a.std.ut_offset < 93600 && -90000 < a.dst.ut_offset < 93600) by { reveal(alt_wf); }
+    lemma_instant_year_window(a, y, yy, ti);
+    let j = walk_index(sorted, y, yy, is_start);
+    assert(0 <= j <= 5);
+    assert(t[j] == ti);
+    assert(seg_type(a, sorted, j) == (if is_start { a.std } else { a.dst }));
+    assert(seg_type(a, sorted, j + 1) == (if is_start { a.dst } else { a.std }));
+    assert(walk_gap_cond(q, a, sorted, t, p0, j));
+}
+
+// C05, last sentence ("a local time that occurs once is reported as unique"), over the proved clauses: if exactly one instant shows the
+// searched time and it lies in no gap, the result list is that single valid result (so unique() is Some, by unique()'s contract)
+proof fn prop_c05_occurs_once(z: TimeZoneRef, q: FindQuery, rs: Seq<FoundDateTimeKind>, u: int, lt: LocalTimeType)
+    requires
+        normals_sound(z, q, rs),
+        normals_increasing(rs),
+        all_found(z, q, rs),
+        gaps_sound(z, q, rs),
+        clock_shows(z, q, u, lt),
+        forall|u2: int, lt2: LocalTimeType| #[trigger] clock_shows(z, q, u2, lt2) ==> u2 == u,
+        forall|i: int| !#[trigger] gap_cond(z, q, i),
+    ensures
+        rs.len() == 1,
+        rs[0] == FoundDateTimeKind::Normal(q_dt(q, lt, u as i64)),
+{
+    let dt = q_dt(q, lt, u as i64);
+    assert(has_normal(rs, dt));
+    let j = choose|j: int| 0 <= j < rs.len() && #[trigger] rs[j] == FoundDateTimeKind::Normal(dt);
+    assert forall|i: int| 0 <= i < rs.len() implies #[trigger] same_index(i, j) by {
+        if i != j {
+            match rs[i] {
+                FoundDateTimeKind::Normal(d) => {
+                    assert(normal_sound(z, q, rs[i]));
+                    assert(clock_shows(z, q, d.unix_time as int, d.local_time_type));
+                    assert(entry_key(rs[i]) == entry_key(rs[j]));
+                    if i < j {
+                        assert(entry_key(rs[i]) < entry_key(rs[j]));
+                    } else {
+                        assert(entry_key(rs[j]) < entry_key(rs[i]));
+                    }
+                },
+                FoundDateTimeKind::Skipped { before_transition, after_transition } => {
+                    assert(gap_sound(z, q, rs[i]));
+                    let k = choose|k: int| #[trigger] table_gap(z, q, k, rs[i]);
+                    assert(gap_cond(z, q, k));
+                },
+            }
+        }
+    }
+    if rs.len() != 1 {
+        assert(rs.len() >= 2);
+        let other = if j == 0 { 1int } else { 0int };
+        assert(same_index(other, j));
     }
 }
